@@ -922,11 +922,11 @@ impl Injection for Base<Union, Union> {
         self.domain
             .fields()
             .iter()
-            .map(|(f, t)| {
+            .map(|(f, _)| {
                 Ok((
                     f.clone(),
                     From(self.domain.data_type(f).as_ref().clone())
-                        .into(t.as_ref().clone())?
+                        .into(self.co_domain.data_type(f).as_ref().clone())?
                         .super_image(&set.data_type(f))?,
                 ))
             })
